@@ -36,35 +36,47 @@ Theorem C20_fidelity :
 Proof. exact fidelity_correct. Qed.
 Print Assumptions C20_fidelity.
 
-(** EnergySecondMoment, PARTIAL (pure states only; Hermitian H): the quantity under the code's square root is the square of the non-negative real Tr(rho H^2) *)
-Theorem C20_second_moment_pure_partial :
-  forall (D : nat) (H : mat C) (v : vec C), hermitian C cconj D H -> let m := x_def_m2 D H (x_rho (Ket C v)) in snd m = 0 /\ 0 <= fst m /\ x_m2_sq D H (Ket C v) = (fst m * fst m, 0).
-Proof. exact x_second_moment_pure. Qed.
-Print Assumptions C20_second_moment_pure_partial.
+(** EnergySecondMoment (identity.expect(H.apply_to(state))) equals Tr(rho H^2) for kets AND density matrices, any number of qudits and qudit dimension, Hermitian H (after repair 2eafc757; before it the statement was refuted on density matrices) *)
+Theorem C20_second_moment :
+  forall (R : Type) (r0 r1 : R) (radd rmul rsub : R -> R -> R) (ropp rconj : R -> R), ring_theory r0 r1 radd rmul rsub ropp eq -> (forall a b : R, rconj (radd a b) = radd (rconj a) (rconj b)) -> (forall a b : R, rconj (rmul a b) = rmul (rconj a) (rconj b)) -> forall (d n : nat) (H : mat R) (s : state R), (0 < d)%nat -> hermitian R rconj (d ^ n) H -> obs_m2 R r0 r1 radd rmul rconj d n H s = def_m2 R r0 radd rmul (d ^ n) H (rho_of R rmul rconj s).
+Proof. exact second_moment_correct. Qed.
+Print Assumptions C20_second_moment.
 
-(** EnergyVariance, PARTIAL (pure states only; Hermitian H): the subtracted term is the square of the real energy *)
-Theorem C20_variance_pure_partial :
-  forall (D : nat) (H : mat C) (v : vec C), hermitian C cconj D H -> let e := x_def_expect D H (x_rho (Ket C v)) in snd e = 0 /\ x_var_sub D H (Ket C v) = (fst e * fst e, 0).
-Proof. exact x_variance_sub_pure. Qed.
-Print Assumptions C20_variance_pure_partial.
+(** EnergyVariance (second moment - energy^2) equals Tr(rho H^2) - Tr(rho H)^2 for kets and density matrices *)
+Theorem C20_variance :
+  forall (R : Type) (r0 r1 : R) (radd rmul rsub : R -> R -> R) (ropp rconj : R -> R), ring_theory r0 r1 radd rmul rsub ropp eq -> (forall a b : R, rconj (radd a b) = radd (rconj a) (rconj b)) -> (forall a b : R, rconj (rmul a b) = rmul (rconj a) (rconj b)) -> forall (d n : nat) (H : mat R) (s : state R), (0 < d)%nat -> hermitian R rconj (d ^ n) H -> obs_variance R r0 r1 radd rmul rconj rsub d n H s = def_variance R r0 radd rmul rsub (d ^ n) H (rho_of R rmul rconj s).
+Proof. exact variance_correct. Qed.
+Print Assumptions C20_variance.
 
-(** REFUTED on density matrices: rho = I/2, H = diag(1,2): code^2 = 17/4, definition^2 = 25/4 *)
-Theorem C20_second_moment_mixed_refuted :
-  exists (D : nat) (H M : mat C), hermitian C cconj D H /\ hermitian C cconj D M /\ x_m2_sq D H (Dm C M) = (17, 0) /\ x_def_m2 D H M = (5, 0) /\ fst (x_m2_sq D H (Dm C M)) <> fst (x_def_m2 D H M) * fst (x_def_m2 D H M).
-Proof. exact second_moment_mixed_refuted. Qed.
-Print Assumptions C20_second_moment_mixed_refuted.
+(** for Hermitian rho and A, Tr(rho A) is self-conjugate: the real part taken by the code is the whole value *)
+Theorem C20_energy_real :
+  forall (R : Type) (r0 r1 : R) (radd rmul rsub : R -> R -> R) (ropp rconj : R -> R), ring_theory r0 r1 radd rmul rsub ropp eq -> (forall a b : R, rconj (radd a b) = radd (rconj a) (rconj b)) -> (forall a b : R, rconj (rmul a b) = rmul (rconj a) (rconj b)) -> forall (D : nat) (A rho : mat R), hermitian R rconj D A -> hermitian R rconj D rho -> rconj (def_expect R r0 radd rmul D A rho) = def_expect R r0 radd rmul D A rho.
+Proof. exact def_expect_real. Qed.
+Print Assumptions C20_energy_real.
 
-(** REFUTED on density matrices: same witness, subtracted term 5/4 instead of 9/4 *)
-Theorem C20_variance_mixed_refuted :
-  exists (D : nat) (H M : mat C), hermitian C cconj D H /\ hermitian C cconj D M /\ x_var_sub D H (Dm C M) = (5, 0) /\ x_def_expect D H M = (3, 0) /\ fst (x_var_sub D H (Dm C M)) <> fst (x_def_expect D H M) * fst (x_def_expect D H M).
-Proof. exact variance_mixed_refuted. Qed.
-Print Assumptions C20_variance_mixed_refuted.
+(** executed model: the second moment of a pure state is a non-negative real *)
+Theorem C20_second_moment_pure_nonneg :
+  forall (D : nat) (H : mat C) (v : vec C), hermitian C cconj D H -> let m := x_def_m2 D H (x_rho (Ket C v)) in snd m = 0 /\ 0 <= fst m.
+Proof. exact x_second_moment_pure_nonneg. Qed.
+Print Assumptions C20_second_moment_pure_nonneg.
 
-(** the proposed fix (expectation of the identity on H rho H^dag) equals Tr(rho H^2) for kets and density matrices *)
-Theorem C20_fixed_second_moment_correct :
-  forall (R : Type) (r0 r1 : R) (radd rmul rsub : R -> R -> R) (ropp rconj : R -> R), ring_theory r0 r1 radd rmul rsub ropp eq -> (forall a b : R, rconj (radd a b) = radd (rconj a) (rconj b)) -> (forall a b : R, rconj (rmul a b) = rmul (rconj a) (rconj b)) -> forall (D : nat) (H : mat R) (s : state R), hermitian R rconj D H -> expect R r0 radd rmul rconj D (delta R r0 r1) (apply_to R r0 radd rmul rconj D H s) = def_m2 R r0 radd rmul D H (rho_of R rmul rconj s).
-Proof. exact fixed_second_moment_correct. Qed.
-Print Assumptions C20_fixed_second_moment_correct.
+(** the former counterexample rho = I/2, H = diag(1,2) (code gave 2.0616): the model of the repaired code gives 5/2 = Tr(rho H^2) *)
+Theorem C20_second_moment_mixed_witness :
+  hermitian C cconj 2 w_H /\ hermitian C cconj 2 w_rho /\ x_m2 2 1 w_H (Dm C w_rho) = (5, 0) /\ x_def_m2 2 w_H w_rho = (5, 0).
+Proof. exact second_moment_mixed_witness. Qed.
+Print Assumptions C20_second_moment_mixed_witness.
+
+(** same witness: second moment 5/2, energy 3/2, i.e. variance 1/4 as defined (code gave 0.8116) *)
+Theorem C20_variance_mixed_witness :
+  x_m2 2 1 w_H (Dm C w_rho) = (5, 0) /\ x_expect 2 w_H (Dm C w_rho) = (3, 0) /\ x_def_m2 2 w_H w_rho = (5, 0) /\ x_def_expect 2 w_H w_rho = (3, 0).
+Proof. exact variance_mixed_witness. Qed.
+Print Assumptions C20_variance_mixed_witness.
+
+(** from_operator_repr(operations=[(1.0, [])]) is the identity *)
+Theorem C20_identity_entry :
+  forall (R : Type) (r0 r1 : R) (radd rmul rsub : R -> R -> R) (ropp : R -> R), ring_theory r0 r1 radd rmul rsub ropp eq -> forall d n a k : nat, (0 < d)%nat -> (a < d ^ n)%nat -> (k < d ^ n)%nat -> ident_op R r0 r1 radd rmul d n a k = delta R r0 r1 a k.
+Proof. exact ident_entry. Qed.
+Print Assumptions C20_identity_entry.
 
 (** qutip.tensor of single-qudit matrices: entry (i,j) is the product over the qudits of the factor entries at the base-d digits of i and j *)
 Theorem C20_tensor_entry :
